@@ -26,6 +26,7 @@ mod refgram;
 mod replay;
 mod scopes;
 mod sha256;
+mod typedefs;
 
 use common::*;
 
